@@ -146,6 +146,11 @@ func runAlloc(sw *shardWriter, j *jb, c allocCase, st *genStats) {
 				panicked = 1
 			}
 		}()
+		if c.between {
+			// the first call after the interleaved short calls is the one that matters
+			allocs = float64(singleShotMallocs(func() { ok = f() })) / 5
+			return
+		}
 		ok = f()
 		allocs = testing.AllocsPerRun(5, func() { f() })
 		// a real allocation in the call shows on every measurement; a stray allocation by the runtime
@@ -187,7 +192,7 @@ func runAlloc(sw *shardWriter, j *jb, c allocCase, st *genStats) {
 	j.raw(`,"ok":`)
 	j.b01(ok && panicked == 0)
 	j.raw(`,"allocs":`)
-	j.int(int(allocs*5 + 0.5)) // total allocations over 5 runs
+	j.int(int(allocs*5 + 0.5)) // total allocations over 5 runs (of the single first call for "between" cases)
 	j.raw(`,"tier":`)
 	j.int(tier)
 	j.raw(`,"panics":`)
@@ -307,6 +312,16 @@ func genAllocC19(c *genCtx, sw *shardWriter, j *jb) {
 			run("HandleObjectValues1", d, dc.segs, dc.warm, 0, 0)
 		}
 	}
+}
+
+// singleShotMallocs counts the heap allocations of one call of f (GOMAXPROCS pinned to 1 like AllocsPerRun).
+func singleShotMallocs(f func()) uint64 {
+	defer runtime.GOMAXPROCS(runtime.GOMAXPROCS(1))
+	var a, b runtime.MemStats
+	runtime.ReadMemStats(&a)
+	f()
+	runtime.ReadMemStats(&b)
+	return b.Mallocs - a.Mallocs
 }
 
 // --------------------------------------------------------------------- C20
@@ -592,8 +607,17 @@ func init() {
 		for _, sh := range memShapes {
 			for _, fn := range memFns {
 				if sh.name == ev["shape"].(string) && fn.name == ev["fn"].(string) {
-					runMemScale(&j, sh, fn, scales)
-					return append([]byte{}, j.b...), nil
+					// what pooled child readers remember depends on when the collector empties the pools:
+					// the measurement is repeated; every repetition is a real execution and all are validated
+					var out []byte
+					for rep := 0; rep < 3; rep++ {
+						runMemScale(&j, sh, fn, scales)
+						if rep > 0 {
+							out = append(out, '\n')
+						}
+						out = append(out, j.b...)
+					}
+					return out, nil
 				}
 			}
 		}
@@ -605,8 +629,15 @@ func init() {
 		var j jb
 		for _, h := range memHists() {
 			if h.name == ev["name"].(string) {
-				runMemHist(&j, h, int(ev["m"].(float64)))
-				return append([]byte{}, j.b...), nil
+				var out []byte
+				for rep := 0; rep < 3; rep++ {
+					runMemHist(&j, h, int(ev["m"].(float64)))
+					if rep > 0 {
+						out = append(out, '\n')
+					}
+					out = append(out, j.b...)
+				}
+				return out, nil
 			}
 		}
 		return nil, fmt.Errorf("unknown history")
